@@ -74,8 +74,9 @@ def make_engine(modules=None, repo=None):
     eng = FullEngine(repo, contracts, reg["schema"])
     for name, node in reg["preds"].items():
         eng.preds[name] = (node, None)
-    for name, (node, args, ret) in reg["recs"].items():
+    for name, (node, args, ret, opaque) in reg["recs"].items():
         eng.rec_funcs[name] = RecSpec(name, node, args, ret)
+        eng.rec_funcs[name].opaque = opaque
     eng.lemmas = dict(reg["lemmas"])
     if any(getattr(c, "uses_marks", False) for c in contracts.values()) or any(d.get("uses_marks") for d in eng.lemmas.values()):
         from . import marks
